@@ -994,7 +994,7 @@ type originSeed struct{ id, source, contract string }
 
 var chainSpellings = []string{"polygon", "Polygon", "POLYGON", "ethereum", "Ethereum", "celo"}
 
-func ethAddr(i int) string  { return fmt.Sprintf("0x%040x", 0xabc000+i) }
+func ethAddr(i int) string   { return fmt.Sprintf("0x%040x", 0xabc000+i) }
 func ethTxHash(i int) string { return fmt.Sprintf("0x%064x", 0x7a0000+i) }
 
 func (g *Gen) chainName(v *Snapshot, mode int) string {
@@ -1223,10 +1223,10 @@ func (g *Gen) buyOrder(a *Actor, v *Snapshot, o *marketv1.SellOrder, mode int) *
 // ---- data values -------------------------------------------------------
 
 type hashSeed struct {
-	graph                    bool
-	hash                     []byte
-	digest, canon, merkle    uint32
-	ext                      string
+	graph                 bool
+	hash                  []byte
+	digest, canon, merkle uint32
+	ext                   string
 }
 
 var algoValues = []uint32{1, 1, 1, 1, 2, 3, 7, 128, 254, 255, 255, 256, 257, 1 << 31, 1<<32 - 1}
